@@ -199,16 +199,18 @@ def fault_stop_same(k: int, r: bool, c: bool, f: bool, pr_: bool) -> Tuple[bool,
 
 # ------------------------------------------------------------------ O5 validation-mode 'match'
 MATCH_MODES = {"match": (None, None, None, None), "match,no-raise,stop": (False, None, True, None), "match,no-fail": (None, None, None, False)}
+# validation-mode says no-match: the offending line does not match - and only that line (argument errors; shards kind argval/argtop)
+NOMATCH_MODES = {"no-match": (None, None, None, None), "no-match,no-raise": (False, None, None, None)}
 
 
 def match_oracle(kind, k, r, c, s, f, pr_, vm):
-    vr, vp, vs, vf = MATCH_MODES[vm]
+    vr, vp, vs, vf = MATCH_MODES[vm] if vm in MATCH_MODES else NOMATCH_MODES[vm]
     raised, ret, s_, t_, errs, valid, printed = fault_oracle(k, r, c, s, f, pr_, vr, vp, vs, vf)
     fired = 0 <= k < NREC
     # validation-mode says match: a python exception inside a function leaves the offending line matching
     # validation-mode says match: the offending line still matches (for an argument error unless the validation-mode itself says
     # stop: that stop is applied inside the function, in the middle of the line)
-    k_returned = fired and not raised and (kind == "pyexc" or vs is not True)
+    k_returned = fired and not raised and (kind == "pyexc" or vs is not True) and vm in MATCH_MODES
     return (raised, [i for i in ret if i != k], s_, [i for i in t_ if i != k], errs, valid, printed, k_returned)
 
 
@@ -220,13 +222,15 @@ def match_oracle(kind, k, r, c, s, f, pr_, vm):
     bound="as O2, under validation-mode comments containing 'match' (alone, with 'no-raise, stop', with 'no-fail'): the policy flags "
     "and their overrides decide raise/collect/stop/fail/print exactly as before; the offending line still "
     "matches (for an argument-value error unless the run is stopped on it; whether later components of that line run is not compared); "
-    "kind argtop: the offending function is itself a top-level component that decides the match (a non-numeric cell on line k). "
+    "under 'no-match' comments (kind argtop) the offending line does not match and every other line is decided as without the error; kind argtop: the offending function is itself a top-level component that decides the match (a non-numeric cell on line k). "
     "The configuration file held another policy ('raise, collect') when the CsvPath was created: only the policy assigned afterwards counts",
     outside="match-mode semantics of the offending line for argument errors",
     encodes=ENC + ["csvpath/matching/functions/function.py:Function.matches (argument errors handled in place)", "csvpath/matching/functions/args.py:Args.handle_errors_if",
                    "csvpath/matching/productions/expression.py:Expression.matches (match_validation_errors)", "csvpath/modes/validation_mode.py"],
-    tiers={"quick": {"timeout": 900, "K": {"KLO": -1, "KHI": 5}, "shards": product(kind=["pyexc", "argval", "argtop"], vm=list(MATCH_MODES), pr_=[False], r=[False])},
-           "thorough": {"timeout": 3000, "K": {"KLO": -1, "KHI": 5}, "shards": product(kind=["pyexc", "argval", "argtop"], vm=list(MATCH_MODES), pr_=[False, True])}},
+    tiers={"quick": {"timeout": 900, "K": {"KLO": -1, "KHI": 5}, "shards": product(kind=["pyexc", "argval", "argtop"], vm=list(MATCH_MODES), pr_=[False], r=[False])
+                     + product(kind=["argtop"], vm=list(NOMATCH_MODES), pr_=[False], r=[False])},
+           "thorough": {"timeout": 3000, "K": {"KLO": -1, "KHI": 5}, "shards": product(kind=["pyexc", "argval", "argtop"], vm=list(MATCH_MODES), pr_=[False, True])
+                        + product(kind=["argval", "argtop"], vm=list(NOMATCH_MODES), pr_=[False, True])}},
 )
 def fault_match(kind: str, vm: str, k: int, r: bool, c: bool, s: bool, f: bool, pr_: bool) -> Tuple[bool, List[int], List[int], List[int], List[int], bool, int, bool]:
     text = '~ validation-mode: %s ~ $SYM[*][ push("s", line_number()) %s push("t", line_number()) ]' % (vm.replace(",", ", "), FAULT[kind])
